@@ -4,7 +4,7 @@ CONSTANTS
   Depths <- D123
   Totals <- TotalsJail
   Extras = {0}
-  Patterns <- PatQ
+  Patterns <- PatJail
   Vias <- ViaJail
   NameMax = 255
   PathMax = 4095
